@@ -151,7 +151,12 @@ def extract_run_step():
                 write = first + n.lineno - 1
     if read is None or write is None:
         raise ValueError("bptk.run_step: clock read/write not recognised")
-    return {"code": fn.__code__, "read": read, "write": write}
+    # where the step's work (the runner call, which is what can fail) sits relative to the clock write
+    work = [first + n.lineno - 1 for n in ast.walk(tree) if isinstance(n, ast.Call) and isinstance(n.func, ast.Attribute)
+            and n.func.attr == "run_scenario_step"]
+    if not work:
+        raise ValueError("bptk.run_step: the runner call was not recognised")
+    return {"code": fn.__code__, "read": read, "write": write, "write_before_work": write < min(work)}
 
 
 def probe_save():
@@ -259,6 +264,9 @@ def ops_of(kind, h, nsteps):
     return ops
 
 
+_RS = {}            # run_step facts for the encoding (set by run() / replay())
+
+
 def bmc(hs, kinds, nsteps, want_violation=True, faults=True):
     """returns (result, scenario dict)"""
     import z3
@@ -323,7 +331,7 @@ def bmc(hs, kinds, nsteps, want_violation=True, faults=True):
             s.add(act[(r, "X")] == z3.Not(proceed[r]))
         if (r, "S") in act:
             s.add(act[(r, "S")] == proceed[r])        # a refused request returns before the save; GET /save-state always saves
-    rv, wv = {}, {}
+    rv, wv, produced = {}, {}, {}
     wops = [(r, o) for (r, o) in allops if o.startswith("W")]
     for r in R:
         h = hs[kinds[r]]
@@ -335,7 +343,10 @@ def bmc(hs, kinds, nsteps, want_violation=True, faults=True):
             at_fault = z3.And(fault[r] != 0, j == fstep[r])
             # reads happen for steps up to and including the faulty one (exception: after the read; client gone: after the step)
             ract = z3.And(proceed[r], fault[r] != 3, z3.Or(before_fault, at_fault))      # fault 3: exception before the first step
-            wact = z3.And(proceed[r], fault[r] != 3, z3.Or(before_fault, z3.And(at_fault, fault[r] == 2)))
+            # a step whose work raises (fault 1) has moved the clock only if run_step writes it before doing the work
+            fault1_writes = z3.BoolVal(bool(_RS.get("write_before_work")))
+            wact = z3.And(proceed[r], fault[r] != 3, z3.Or(before_fault, z3.And(at_fault, z3.Or(fault[r] == 2, z3.And(fault[r] == 1, fault1_writes)))))
+            produced[(r, j)] = z3.And(proceed[r], fault[r] != 3, z3.Or(before_fault, z3.And(at_fault, fault[r] == 2)))     # the step is in the response
             s.add(act[(r, "R%d" % j)] == ract)
             s.add(act[(r, "W%d" % j)] == wact)
             rv[(r, j)] = z3.Int("rv_%d_%d" % (r, j))
@@ -365,7 +376,7 @@ def bmc(hs, kinds, nsteps, want_violation=True, faults=True):
         last = z3.And(act[k], z3.Not(z3.Or(*later)) if later else True)
         final_clock = z3.If(last, wv[(k[0], int(k[1][1:]))], final_clock)
     final_lock = lock_at(z3.IntVal(M + 1))
-    returned = z3.Sum([z3.If(act[k], 1, 0) for k in wops]) if wops else z3.IntVal(0)
+    returned = z3.Sum([z3.If(produced[(k[0], int(k[1][1:]))], 1, 0) for k in wops]) if wops else z3.IntVal(0)
     consecutive = z3.And(*[z3.Implies(z3.And(act[(r, "R%d" % (j + 1))], act[(r, "W%d" % j)]), rv[(r, j + 1)] == rv[(r, j)] + 1)
                            for r in R for j in range(nsteps[r] - 1)]) if any(nsteps[r] > 1 for r in R) else z3.BoolVal(True)
     pairs = [((r, j), (q, i)) for (r, j) in rv for (q, i) in rv if (r, j) < (q, i) and r != q]
@@ -484,17 +495,20 @@ def real_run(sc, hs, rs):
     fault_at = {names[r]: (sc["faults"][r], sc["fsteps"][r]) for r in range(len(kinds))}
     calls = {n: 0 for n in names}
 
-    def patched(self, settings=None, flat=False):
+    from BPTK_Py.scenariorunners.sd_runner import SdRunner
+    orig_runner_step = SdRunner.run_scenario_step
+
+    def failing_runner_step(self, *a, **k):
+        # the fault is raised where a step can really fail: inside the runner the real run_step calls
         n = threading.current_thread().name
         if n in calls:
             j = calls[n]
             calls[n] += 1
             f, fs = fault_at[n]
             if f == 1 and j == fs:
-                _ = self.session_state["step"]
-                raise Boom("injected fault in run_step")
-        return orig_run_step(self, settings=settings, flat=flat)
-    patched.__code__ = patched.__code__          # keep a distinct code object; the real run_step stays watched
+                raise Boom("injected fault in the step's work")
+        return orig_runner_step(self, *a, **k)
+    patched = orig_run_step
     results = {}
 
     def body(r):
@@ -534,11 +548,11 @@ def real_run(sc, hs, rs):
                     pass
             return 200, "".join(chunks)
         return f
-    bptk_cls.run_step = patched
+    SdRunner.run_scenario_step = failing_runner_step
     try:
         res = enf.run({names[r]: body(r) for r in range(len(kinds))})
     finally:
-        bptk_cls.run_step = orig_run_step
+        SdRunner.run_scenario_step = orig_runner_step
     obs = {"responses": {}, "clock": b.session_state["step"] if b.session_state else None, "lock": b.is_locked(), "enforcer": enf.failed}
     for n in names:
         v = res.get(n)
@@ -585,6 +599,7 @@ def judge(obs, sc):
 
 def replay(case):
     hs, rs = extract()
+    _RS.update(rs)
     obs = real_run(case, hs, rs)
     bad = judge(obs, case)
     short = {n: (v[0], step_times(v[1]) if v and v[0] == 200 else str(v[1])[:60]) for n, v in obs["responses"].items()}
@@ -613,6 +628,7 @@ def run(tier):
     except Exception as e:
         rep.inconcl("extraction failed: %s" % e)
         return rep.finish()
+    _RS.update(rs)
     summary = {k: {x: v for x, v in h.items() if x not in ("code", "gen_code", "save", "inner")} for k, h in hs.items()}
     summary["state_save_writes_live_lock_flag"] = "save" in hs
     queries, unsat = 0, 0
@@ -683,7 +699,7 @@ def run(tier):
                "lock/unlock/is_locked are plain flag operations (checked on the source); run_step reads the clock at its first and writes it at its last clock statement",
                "frame condition: the only other writer of the flag in the package, the state save (InstanceManager._get_instance_state), is run concretely on a locked stub session; if it changes the live flag it becomes an operation of the model (after every accepted request's unlock, and as a GET /save-state request)")
     rep.coverage.update({"states": queries, "transitions": max(1, unsat), "traces_validated_against_impl": len(rep.cands) + validated, "samples": samples,
-                         "extracted_protocol": summary, "run_step_lines": {"read": rs["read"], "write": rs["write"]}, "exhaustive": True,
+                         "extracted_protocol": summary, "run_step_lines": {"read": rs["read"], "write": rs["write"], "clock_written_before_the_work": rs["write_before_work"]}, "exhaustive": True,
                          "explanation": "states = BMC queries (each covers every schedule, request-kind pair and fault choice within the bound); transitions = queries unsat",
                          "outside": "preemption inside one source line, WSGI servers' own threading, more than 3 requests"})
     return rep.finish()
